@@ -224,6 +224,8 @@ def model(cls, first, content, additional):
 
 def rstrip_list(b):
     b = list(b)
+    if not any(x.strip() for x in b):
+        return []  # a body of only blank lines carries no content (the directive receives an empty body)
     while b and b[-1] == "":
         b.pop()
     return b
